@@ -200,6 +200,20 @@ theorem dither_breaks_multi_equals_mono :
   revert h2
   decide
 
+/-! ## stated, NOT proved here -/
+
+/-- channel DATA isolation also with dither: if the conversion's seed advance depends on the seed and the number of samples
+    only (true of rint-clip.h: two LCG draws per block of 16 and two for the tail), what the caller sees of channel `c` does
+    not depend on the other channels' samples.  Exercised by `harness/chan/iso.c` (dithered jobs differ from the mono run by
+    dither noise only, F17), not proved: it needs a second simulation (two multi-channel runs) alongside `Rel`. -/
+def Goal_channel_data_isolation : Prop :=
+  ∀ (σ α β κ : Type) (E : Engine σ α) (_ : Shape E κ) (cfg : Cfg α β) (adv : Nat → Nat → Nat),
+    (∀ seed ys, (cfg.cout seed ys).2.2 = adv seed ys.length ∧ (cfg.cout seed ys).1.length = ys.length) →
+    ∀ (c : Nat), c < cfg.ch → ∀ (seed : Nat) (ops ops' : List (Op β)),
+      ops.map (projOp cfg c) = ops'.map (projOp cfg c) →
+      ((run E cfg (initSt E cfg.ch seed) ops).2.map (fun o => (projObs c o).out))
+        = ((run E cfg (initSt E cfg.ch seed) ops').2.map (fun o => (projObs c o).out))
+
 /-! ## non-vacuity: the hypotheses are satisfiable by the engine and conversions the executable tie runs -/
 
 example : Shape (Toy.engine 2 3 4) Toy.TK := Toy.shape 2 3 4
